@@ -67,6 +67,17 @@ var atomKinds = []atomKind{
 	{"containsAllOne", map[string]any{"containsAll": []any{"x"}}, []any{"x"}, []any{"y"}, nil, nil},
 	{"containsSomeAll", map[string]any{"containsSome": []any{"x", "y"}}, []any{"x", "y"}, []any{"w", "z"}, nil, nil},
 	{"patternUnanchored", map[string]any{"pattern": "b+c"}, []any{"abbc"}, []any{"abd"}, nil, nil},
+	// POSITIVE POLARITY ONLY (index >= 37): per-value constraints on properties with no value (vacuously true) or with
+	// several values of which one fails (false).  Their negated twins are not their complements (spec/Atoms.tla), so
+	// lib/c01.py uses them only in formulas in which no atom is ever negated (no not / if).
+	{"patternVacuous", map[string]any{"pattern": "^a.*z$"}, []any{}, []any{"abcz", "zzz"}, nil, nil},
+	{"inVacuous", map[string]any{"in": []any{"x", "y"}}, []any{}, []any{"x", "q"}, nil, nil},
+	{"minLengthMulti", map[string]any{"minLength": 3}, []any{"abc", "abcd"}, []any{"abcd", "ab"}, nil, nil},
+	{"maxInclusiveMulti", map[string]any{"maxInclusive": 5}, []any{4, 5}, []any{5, 6}, nil, nil},
+	{"datatypeVacuous", map[string]any{"datatype": "xsd.string"}, []any{}, []any{"s", 5}, nil, nil},
+	{"lessThanVacuous", map[string]any{"lessThanProperty": "ex.b%d"}, []any{}, []any{1, 3}, []any{2}, []any{2}},
+	{"inNumbersMulti", map[string]any{"in": []any{1, 2}}, []any{1, 2}, []any{2, 3}, nil, nil},
+	{"maxLengthVacuous", map[string]any{"maxLength": 3}, []any{}, []any{"abcd", "abc"}, nil, nil},
 }
 
 type logicNode struct {
